@@ -1,5 +1,5 @@
 //verif:pkg internal/spynode
-//verif:kit memstore nodekit synckit conn runkit
+//verif:kit memstore nodekit synckit conn runkit interleave
 package spynode
 
 // C19 — Stop terminates the run loop, persists state and silences handlers; a lost trusted
@@ -400,4 +400,111 @@ func VerifHarness_C19_stop_after_loss() {
 	verifrt.Sig("stop-after-loss", "unconfirmed-saved")
 	verifrt.Assert(tracked, "C19.stop.unconfirmed-transactions-are-saved")
 	verifrt.Reach("C19.stop-after-loss.done")
+}
+
+// VerifHarness_C19_stop_while_processing: the node is in sync and the trusted peer relays n
+// transactions that match the subscriptions; the full node behind the output fetcher takes half a
+// second per transaction, so the transaction processor has up to two seconds of work queued when
+// Stop is requested 0..300 ms later.  Stop returns in bounded time, the run loop has returned by
+// then, no handler is invoked after Stop has returned (the processing threads have finished, not
+// been left behind), and a new node on the same storage tracks what the stopped node tracked.
+func VerifHarness_C19_stop_while_processing() {
+	verifrt.Goroutines()
+	ctx := context.Background()
+	w, store, cfg := c19NewWorld(ctx)
+	if w.ln != nil {
+		defer w.ln.Close()
+	}
+	w.newNode(cfg, store)
+	node := w.node
+	w.connectPeer()
+	runDone, stopDone := false, false
+	var mu sync.Mutex
+	go func() {
+		node.Run(ctx)
+		mu.Lock()
+		runDone = true
+		mu.Unlock()
+	}()
+	for tick := 0; tick < 30 && !node.state.IsReady(); tick++ {
+		w.tick(100 * time.Millisecond)
+	}
+	verifrt.Assert(node.state.IsReady(), "C19.stop-while-processing.in-sync")
+	// between two transactions the processor holds no lock: the other threads (the delay checker,
+	// which waits for the processor's lock and is one of the threads the shutdown waits for first)
+	// get to run there; run-to-block scheduling alone would let the processor keep the lock to itself
+	vkInterleave = func(point string) { verifrt.Yield() }
+	defer func() { vkInterleave = nil }()
+	w.fetcher.delay = 500 * time.Millisecond
+	n := 2 + verifrt.Choose("relevant-transactions", 3) // 2..4
+	for i := 0; i < n; i++ {
+		w.link.toNode(vkTx(40+i, []int{8 + i}, true))
+	}
+	for k := verifrt.Choose("stop-ticks-after-the-burst", 4); k > 0; k-- {
+		w.tick(100 * time.Millisecond)
+	}
+	stopRequested := verifrt.NowNanos()
+	go func() {
+		node.Stop(ctx)
+		mu.Lock()
+		stopDone = true
+		mu.Unlock()
+	}()
+	returnedAfter := int64(-1)
+	eventsAtStop := 0
+	for tick := 0; tick < 80; tick++ {
+		w.tick(100 * time.Millisecond)
+		mu.Lock()
+		s := stopDone
+		mu.Unlock()
+		if s {
+			returnedAfter = verifrt.NowNanos() - stopRequested
+			eventsAtStop = len(w.rec.events)
+			break
+		}
+	}
+	verifrt.Sig("stop-while-processing", n, "stop")
+	verifrt.Assert(returnedAfter >= 0 && returnedAfter <= int64(5*time.Second), "C19.stop.returns-within-bounded-time")
+	if returnedAfter < 0 {
+		return
+	}
+	mu.Lock()
+	r := runDone
+	mu.Unlock()
+	verifrt.Sig("stop-while-processing", n, "run")
+	verifrt.Assert(r, "C19.stop.run-loop-has-returned-when-stop-returns")
+	// what the stopped node tracks now, and what it saved
+	mine, _ := node.txs.GetUnconfirmed(ctx)
+	node.txs.ReleaseUnconfirmed(ctx)
+	for tick := 0; tick < 25; tick++ {
+		w.tick(100 * time.Millisecond)
+	}
+	verifrt.Sig("stop-while-processing", n, "silence")
+	verifrt.Assert(len(w.rec.events) == eventsAtStop, "C19.stop.no-handler-invoked-after-stop-returns")
+	k2, lerr := vkNewNode(ctx, store)
+	verifrt.Sig("stop-while-processing", n, "load")
+	verifrt.Assert(lerr == nil, "C19.stop.saved-state-loads")
+	if lerr != nil {
+		return
+	}
+	later, _ := node.txs.GetUnconfirmed(ctx)
+	node.txs.ReleaseUnconfirmed(ctx)
+	theirs, _ := k2.node.txs.GetUnconfirmed(ctx)
+	k2.node.txs.ReleaseUnconfirmed(ctx)
+	same := len(mine) == len(theirs) && len(later) == len(mine)
+	for _, a := range later {
+		found := false
+		for _, b := range theirs {
+			if a == b {
+				found = true
+			}
+		}
+		same = same && found
+	}
+	verifrt.Sig("stop-while-processing", n, "unconfirmed-saved")
+	verifrt.Assert(same, "C19.stop.unconfirmed-transactions-are-saved")
+	if len(mine) > 0 {
+		verifrt.Reach("C19.stop-while-processing.tracked")
+	}
+	verifrt.Reach("C19.stop-while-processing.done")
 }
